@@ -11,6 +11,10 @@ import (
 )
 
 func main() {
+	if vlib.IsChild() && len(os.Args) > 1 && os.Args[1] == "e2e" {
+		e2eChild()
+		return
+	}
 	var replayData []byte
 	replaying := false
 	for i, a := range os.Args {
@@ -29,8 +33,13 @@ func main() {
 		}
 	}
 	c18rdma.Run(c, c.Rand("rdma"), c.N(1200, 40000))
+	runE2E(c)
+	mc := c18rdma.MinCounters()
+	mc["e2e_runs"] = 30
+	mc["e2e_multi_gpu_runs_equal_to_single"] = 20
 	c.Finish(vlib.FinishOpts{
-		Rule: "RDMA scenario = (2-4 real rdma.Comp engines on one outside connection, buffer sizes, per-cycle widths, 1-2 L1 requesters and " +
+		Rule: "end-to-end case = (integer program: H2D, 1-3 element-wise kernels over a grid of any size incl. a partial last work-group, device-to-device copy of an arbitrary byte count, D2H; placement: 1 GPU | unified device over 2/4 GPUs | plain 2/4 GPUs with both buffers distributed page-wise; emulation or r9nano timing); compared bit-exactly with the single-GPU run and a host reference; non-trivial = multi-GPU placement of a program whose grid has a partial last work-group or whose work-group count is 1 above a multiple of 64. " +
+			"RDMA scenario = (2-4 real rdma.Comp engines on one outside connection, buffer sizes, per-cycle widths, 1-2 L1 requesters and " +
 			"1-2 L2 memories per engine with random latency/reordering/stalls, streams of reads / writes / masked writes to other engines' memory, " +
 			"0-3 drain-all / restart-all rounds at random points); non-trivial = distinct scenario with every transaction checked end to end, " +
 			"at least one L2 reply overtaking an earlier one and at least one DrainReq delivered while the engine had an open transaction",
@@ -41,6 +50,6 @@ func main() {
 			"open transaction of an engine = forwarded on its RDMARequestOutside and not yet answered on its RDMARequestInside, or taken from its RDMADataOutside and not yet answered there",
 		},
 		MinNontrivial: 40,
-		MinCounters:   c18rdma.MinCounters(),
+		MinCounters:   mc,
 	})
 }
